@@ -291,8 +291,9 @@ func VerifUnmanagedASA() {
 }
 
 // Hostnames a reached device may report: the expected one, an unrelated
-// one, the expected one as proper prefix / suffix, different case.
-var verifHostnames = []string{"router", "other", "router2", "lab-router", "Router", "rout"}
+// one, the expected one as proper prefix / suffix (also with - or . as
+// separator), different case.
+var verifHostnames = []string{"router", "other", "router2", "lab-router", "Router", "rout", "router-b", "router.lab"}
 
 func verifUnmanaged(model string, changes []string, spoc string, mk func(host string, banner bool) *vfsim.Scenario) {
 	host := vf.FixString(vf.Pick("reportedHostname", verifHostnames))
